@@ -6,7 +6,13 @@
 (*  Cases        tool schema shape (annotation depth 1..8, primitive type,    *)
 (*               header name class, 0..2 further annotated properties in the  *)
 (*               same object, all with different values) x argument value     *)
-(*               class                                                        *)
+(*               class x client-side history (below)                          *)
+(*  History      what the client did before the call and what happened on the *)
+(*               server meanwhile: it decides which definition of the tool    *)
+(*               (none / the current one / an outdated one) the client builds *)
+(*               the Mcp-Param-* headers from.  A small state machine of the  *)
+(*               client's tools/list cache (mcp.methodCache, ListTools,       *)
+(*               lookupTool, callToolChangedHandler), transcribed             *)
 (*  ClientHdr    mcp.generateParamHeaders / encodeHeaderValue, transcribed    *)
 (*  OnWire       what an HTTP/1.1 hop does to a field value (Go net/http)     *)
 (*  ServerAccepts mcp.validateParamHeaders / decodeHeaderValue /              *)
@@ -15,7 +21,13 @@
 (*               annotation's header is bound to                              *)
 (*  Holds        Agreement: schema-valid, in-range arguments are accepted and *)
 (*               reach the tool handler unaltered, and every Mcp-Param-*      *)
-(*               header the client sends carries its own parameter's value    *)
+(*               header the client sends carries its own parameter's value -  *)
+(*               whenever the client is Informed: the last tools/list answer  *)
+(*               it obtained for the tool carries the definition the server   *)
+(*               enforces now (the SDK client learns schemas from ListTools   *)
+(*               only; without a definition it sends no Mcp-Param-* header,   *)
+(*               which is the documented behaviour of lookupTool, not a       *)
+(*               disagreement about a call "valid under the tool's schema")   *)
 EXTENDS Integers, Sequences, FiniteSets, TLC
 
 Depths == 1..8
@@ -29,9 +41,11 @@ IntVals == {"zero", "small", "neg", "maxsafe", "minsafe", "nearsafe", "beyond", 
 BoolVals == {"true", "false", "absent", "null"}
 ValsOf(ty) == CASE ty = "string" -> StringVals [] ty = "integer" -> IntVals [] ty = "boolean" -> BoolVals
 
-Cases == {[depth |-> d, ty |-> t, val |-> v, hname |-> h, nsib |-> s] :
+\* (schema shape, value class): the rows of the table; a case is a row plus a history (field hist, see below)
+Rows == {[depth |-> d, ty |-> t, val |-> v, hname |-> h, nsib |-> s] :
             d \in Depths, t \in Types, v \in StringVals \cup IntVals \cup BoolVals, h \in HNames, s \in NSibs}
-CaseSet == {c \in Cases : c.val \in ValsOf(c.ty)}
+RowSet == {c \in Rows : c.val \in ValsOf(c.ty)}
+WithHist(row, h) == [depth |-> row.depth, ty |-> row.ty, val |-> row.val, hname |-> row.hname, nsib |-> row.nsib, hist |-> h]
 
 \* what the property quantifies over: schema-valid values, integers within +-(2^53-1)
 InScope(c) == c.val \notin {"null", "beyond", "negbeyond"}
@@ -88,22 +102,125 @@ OwnValues(c) == \A i \in Params(c) : BoundTo(c, i) = i
 \* the siblings' values are plain in-range primitives: each is accepted iff its header is bound to itself
 SiblingsAccepted(c) == \A i \in Params(c) \ {0} : BoundTo(c, i) = i
 
-\* The code-shaped outcome of a real client call
-Expected(c) == LET h == ClientHdr(c)
-                   ok == ServerAccepts(c, h) /\ BoundTo(c, 0) = 0 /\ SiblingsAccepted(c)
-               IN [accepted |-> ok, same |-> ok, code |-> IF ok THEN 0 ELSE -32020, hdr |-> h,
-                   own |-> BoundTo(c, 0) = 0, sibok |-> \A i \in Params(c) \ {0} : BoundTo(c, i) = i]
+-----------------------------------------------------------------------------
+\* Client-side history: where the client gets the tool definition from
+\*
+\* A history is [ttl, page, sub, steps]:
+\*   ttl   "none": tools/list answers carry ttlMs = 0 (the server default); "pos": a positive ttlMs
+\*   page  "first": the tool is on the first page of tools/list; "later": on a later page only (the first page is
+\*         filled with other tools)
+\*   sub   the client has a ToolListChangedHandler: it keeps a subscriptions/listen stream and the server's
+\*         notifications/tools/list_changed reach it
+\*   steps what happens, in order, before the call:
+\*         "list"   the application lists the tools (every page: ClientSession.Tools)
+\*         "wait"   more than the ttl passes (nothing else happens)
+\*         "change" the server replaces the tool: every x-mcp-header annotation of it gets another header name
+\*         "shrink" the server removes the tools that filled the first page: the tool is on the first page from now
+\*                  on and the later page is gone (page = "later" only, at most once)
+Ttls == {"none", "pos"}
+Pages == {"first", "later"}
+StepKinds == {"list", "wait", "change", "shrink"}
+WellFormed(h) == LET sh == {i \in DOMAIN h.steps : h.steps[i] = "shrink"}
+                 IN Cardinality(sh) <= (IF h.page = "later" THEN 1 ELSE 0)
+SeqsUpTo(S, n) == UNION {[1..m -> S] : m \in 0..n}
+Hists(n) == {h \in [ttl : Ttls, page : Pages, sub : BOOLEAN, steps : SeqsUpTo(StepKinds, n)] : WellFormed(h)}
+
+\* The client's cache of tools/list answers (methodCache[*ListToolsResult]) holds one entry per cursor.  Two
+\* cursors matter: "p1" (no cursor: the first page) and "pN" (the cursor of the later page of the original
+\* layout).  An entry records which revision of the tool the page listed (NoVer: the page does not list it),
+\* whether it is still servable (ttlMs > 0 and younger than ttlMs) and when it was fetched.
+Keys == {"p1", "pN"}
+NoVer == -1
+NoEntry == [present |-> FALSE, ver |-> NoVer, fresh |-> FALSE, at |-> 0]
+EmptyCache == [k \in Keys |-> NoEntry]
+St0 == [sv |-> 0, shifted |-> FALSE, clock |-> 0, cache |-> EmptyCache]   \* sv: revision of the tool on the server
+
+OnLater(h, st) == h.page = "later" /\ ~st.shifted
+HomeKey(h, st) == IF OnLater(h, st) THEN "pN" ELSE "p1"
+ServerKeys(h, st) == IF OnLater(h, st) THEN {"p1", "pN"} ELSE {"p1"}
+\* methodCache.get serves an entry only while ttlMs > 0 and its age is below ttlMs (and drops it otherwise)
+Servable(e) == e.present /\ e.fresh
+\* ListTools page after page, all fetched at the same instant: every page of the server's current layout is
+\* stored under its cursor (putIfCurrent); entries under cursors that no longer exist stay where they are
+Fetched(h, st) == [k \in Keys |-> IF k \in ServerKeys(h, st)
+                                  THEN [present |-> TRUE, ver |-> IF k = HomeKey(h, st) THEN st.sv ELSE NoVer,
+                                        fresh |-> h.ttl = "pos", at |-> st.clock + 1]
+                                  ELSE st.cache[k]]
+\* notifications/tools/list_changed -> callToolChangedHandler -> methodCache.invalidate
+Notified(h, c) == IF h.sub THEN EmptyCache ELSE c
+Apply(h, st, s) ==
+  CASE s = "list" -> IF Servable(st.cache["p1"]) THEN st   \* answered from the cache, page after page (same age)
+                     ELSE [st EXCEPT !.cache = Fetched(h, st), !.clock = @ + 1]
+    [] s = "wait" -> [st EXCEPT !.cache = [k \in Keys |-> [st.cache[k] EXCEPT !.fresh = FALSE]]]
+    [] s = "change" -> [st EXCEPT !.sv = @ + 1, !.cache = Notified(h, @)]
+    [] s = "shrink" -> IF st.shifted \/ h.page # "later" THEN st
+                       ELSE [st EXCEPT !.shifted = TRUE, !.cache = Notified(h, @)]
+RECURSIVE RunFrom(_, _, _)
+RunFrom(h, st, i) == IF i > Len(h.steps) THEN st ELSE RunFrom(h, Apply(h, st, h.steps[i]), i + 1)
+Final(h) == RunFrom(h, St0, 1)
+
+\* the cached pages that list the tool
+Holding(h) == LET st == Final(h) IN {k \in Keys : st.cache[k].present /\ st.cache[k].ver # NoVer}
+KindOf(st, k) == IF st.cache[k].ver = st.sv THEN "current" ELSE "stale"
+\* ClientSession.lookupTool ranges over the cached pages (a Go map: any order) and takes the first one that lists
+\* the tool, servable or not; CallTool hands that definition to the transport (toolContextKey) - or nothing
+DefKinds(h) == LET st == Final(h) IN IF Holding(h) = {} THEN {"none"} ELSE {KindOf(st, k) : k \in Holding(h)}
+\* the page through which the client saw the tool last
+LastKey(h) == LET st == Final(h) IN CHOOSE k \in Holding(h) : \A j \in Holding(h) : st.cache[j].at <= st.cache[k].at
+\* Informed: the client has listed the tool, has not been told since that the list changed, and the last
+\* tools/list answer it obtained for the tool carries the definition the server enforces now
+Informed(h) == Holding(h) # {} /\ KindOf(Final(h), LastKey(h)) = "current"
+\* where that definition sits (names the abstract failing case in signatures)
+Source(h) == LET st == Final(h) IN
+  IF Holding(h) = {} THEN [page |-> "none", age |-> "none", rev |-> "none", orphan |-> FALSE]
+  ELSE LET k == LastKey(h) IN
+       [page |-> IF k = "pN" THEN "later" ELSE IF h.page = "later" THEN "moved" ELSE "first",
+        age |-> IF h.ttl = "none" THEN "nottl" ELSE IF st.cache[k].fresh THEN "fresh" ELSE "expired",
+        rev |-> IF st.cache[k].ver > 0 THEN "changed" ELSE "orig",
+        orphan |-> Cardinality(Holding(h)) > 1]
+
+\* The code-shaped outcome of a real client call made with definition kind d ("none" / "current" / "stale")
+\* via: which definition the request shows (Mcp-Param-* under the current names / outdated names / none at all)
+Sends(c) == Primitive(c) \/ c.nsib > 0
+ExpectedWith(c, d) ==
+  IF d = "current"
+  THEN LET h == ClientHdr(c)
+           ok == ServerAccepts(c, h) /\ BoundTo(c, 0) = 0 /\ SiblingsAccepted(c)
+       IN [accepted |-> ok, same |-> ok, code |-> IF ok THEN 0 ELSE -32020, hdr |-> h,
+           own |-> BoundTo(c, 0) = 0, sibok |-> \A i \in Params(c) \ {0} : BoundTo(c, i) = i,
+           via |-> IF Sends(c) THEN "current" ELSE "none"]
+  ELSE \* no Mcp-Param-* header under a name the server knows: every annotated argument that is there is "missing"
+       LET ok == ~ArgPresent(c) /\ c.nsib = 0
+       IN [accepted |-> ok, same |-> ok, code |-> IF ok THEN 0 ELSE -32020, hdr |-> "none",
+           own |-> TRUE, sibok |-> c.nsib = 0,
+           via |-> IF d = "stale" /\ Sends(c) THEN "stale" ELSE "none"]
+ExpectedSet(c) == {ExpectedWith(c, d) : d \in DefKinds(c.hist)}
+\* the baseline: tools listed just now, no ttl, first page
+Expected(c) == ExpectedWith(c, "current")
 
 -----------------------------------------------------------------------------
 \* The property
-\* (sibling values are always in scope, so their clause is unconditional)
-Holds(c, o) == /\ InScope(c) => (o.accepted /\ o.same /\ o.own)
-               /\ o.sibok
+\* (sibling values are always in scope, so their clause does not depend on the value class)
+Agreement(c, o) == /\ InScope(c) => (o.accepted /\ o.same /\ o.own)
+                   /\ o.sibok
+Holds(c, o) == Informed(c.hist) => Agreement(c, o)
 
 \* design facts TLC checks on the transcription
 \* (1) encoding is always safe: whatever the class, a base64 header of a primitive is accepted
-B64AlwaysAccepted == \A c \in CaseSet : Primitive(c) => ServerAccepts(c, "b64")
+B64AlwaysAccepted == \A c \in RowSet : Primitive(c) => ServerAccepts(c, "b64")
 \* (2) the client's raw/b64 decision is exactly the set of classes that do not survive the hop unencoded
-EncodeIffNeeded == \A c \in CaseSet : (Primitive(c) /\ c.val # "empty") =>
+EncodeIffNeeded == \A c \in RowSet : (Primitive(c) /\ c.val # "empty") =>
                       (ClientHdr(c) = "b64" <=> (~ServerAccepts(c, "raw") \/ NonAscii(c)))
+\* (3) history machine, for every history of at most n steps
+Has(h, s) == \E i \in DOMAIN h.steps : h.steps[i] = s
+\* once listed, with nothing changed on the server, the client holds the current definition and only that -
+\* however old the answer is, with or without ttl, on whichever page
+ListedStaysKnown(n) == \A h \in Hists(n) : (Has(h, "list") /\ ~Has(h, "change") /\ ~Has(h, "shrink")) =>
+                          (Informed(h) /\ DefKinds(h) = {"current"})
+NeverListedKnowsNothing(n) == \A h \in Hists(n) : ~Has(h, "list") => (~Informed(h) /\ DefKinds(h) = {"none"})
+InformedHoldsCurrent(n) == \A h \in Hists(n) : Informed(h) => "current" \in DefKinds(h)
+\* an informed client can pick an outdated definition only from a page whose cursor no longer exists
+OutdatedOnlyFromOrphans(n) == \A h \in Hists(n) : (Informed(h) /\ DefKinds(h) # {"current"}) =>
+                                 (Has(h, "shrink") /\ Has(h, "change") /\ ~h.sub /\ Source(h).orphan)
+NotifiedNeverOutdated(n) == \A h \in Hists(n) : h.sub => "stale" \notin DefKinds(h)
 =============================================================================
